@@ -115,7 +115,7 @@ def property_theorems(prop_files):
     out = []
     for rel in prop_files:
         p = LEAN / rel
-        txt = p.read_text()
+        txt = strip_comments(p.read_text())     # a comment line starting with the word `theorem` is not a theorem
         ns = []
         names = []
         for line in txt.splitlines():
